@@ -294,9 +294,12 @@ def _handle_block_end(line_num: int, violation: "Violation", state: _BlockState)
 
 def _parse_ignore_start_rules(line: str) -> set[str]:
     """Extract rule names from ignore-start directive."""
-    match = re.search(r"ignore-start\s+([^\s#]+(?:\s+[^\s#]+)*)", line)
+    # `ignore-start rule-a rule-b` or, as some linter guides write it, `ignore-start[rule-a,rule-b]`
+    match = re.search(
+        r"ignore-start(?:\[([^\]]+)\]|\s+([^\s#]+(?:\s+[^\s#]+)*))", line, re.IGNORECASE
+    )
     if match:
-        rules_text = match.group(1).strip()
+        rules_text = (match.group(1) or match.group(2)).strip()
         rules = [r.strip() for r in re.split(r"[,\s]+", rules_text) if r.strip()]
         return set(rules)
     return {"*"}
@@ -324,7 +327,7 @@ def _get_prev_line(lines: list[str], violation_line: int) -> str | None:
 
 def _matches_ignore_next_line_rules(prev_line: str, rule_id: str) -> bool:
     """Check if ignore-next-line directive matches the rule."""
-    match = re.search(r"ignore-next-line\[([^\]]+)\]", prev_line)
+    match = re.search(r"ignore-next-line\[([^\]]+)\]", prev_line, re.IGNORECASE)
     if match:
         return check_bracket_rules(match.group(1), rule_id)
     return True
